@@ -9,6 +9,9 @@
 //!    5 i   hand token i to Token::run on an idle connection (its transport never delivers a byte); the connection is polled once
 //!          and stays pending: the token is still in use (it counts as live); if its runner clone was shut down the connection ends at once
 //!    3 i / 6 i   also drop that connection task (the client went away): only now is the slot free
+//!    8 i / 9 i   hand token i to Token::run on a connection that carries ONE complete request (8: without KeepConn, 9: with) and whose
+//!          write side never becomes ready: the handler returns at once and Request::close stalls in its first write; the request is
+//!          in flight, the token stays in use until the connection task is dropped (3 i / 6 i), also across a shutdown
 //!    7 r   Runner::shutdown on clone r (r >= 1, created, not yet shut down, no unfinished get_token future of it outstanding; otherwise
 //!          nothing happens): its idle connections are polled and end, which frees their slots for the other clones.  A later `1 r`
 //!          falls back to the original runner.
@@ -69,6 +72,47 @@ impl AsyncWrite for Sink {
         Poll::Ready(Ok(()))
     }
 }
+/// a connection that delivers one complete request and then nothing
+struct OneShot {
+    data: Vec<u8>,
+    pos: usize,
+}
+impl AsyncRead for OneShot {
+    fn poll_read(mut self: Pin<&mut Self>, _: &mut Context, buf: &mut [u8]) -> Poll<io::Result<usize>> {
+        let n = buf.len().min(self.data.len() - self.pos);
+        if n == 0 {
+            return Poll::Pending;
+        }
+        let p = self.pos;
+        buf[..n].copy_from_slice(&self.data[p..p + n]);
+        self.pos += n;
+        Poll::Ready(Ok(n))
+    }
+}
+/// a write side that never becomes ready (a client that does not drain its socket)
+struct Stall;
+impl AsyncWrite for Stall {
+    fn poll_write(self: Pin<&mut Self>, _: &mut Context, _: &[u8]) -> Poll<io::Result<usize>> {
+        Poll::Pending
+    }
+    fn poll_flush(self: Pin<&mut Self>, _: &mut Context) -> Poll<io::Result<()>> {
+        Poll::Pending
+    }
+    fn poll_close(self: Pin<&mut Self>, _: &mut Context) -> Poll<io::Result<()>> {
+        Poll::Pending
+    }
+}
+fn returns_at_once() -> impl for<'a, 'b> FnMut(&'a mut Request<'b, OneShot, Stall>) -> BoxFuture<'a, io::Result<ExitStatus>> {
+    |_req| Box::pin(async { Ok(ExitStatus::SUCCESS) })
+}
+/// BeginRequest(id 1, Responder, flags) + empty Params + empty Stdin
+fn one_request(keep: bool) -> Vec<u8> {
+    let mut v = vec![1, 1, 0, 1, 0, 8, 0, 0, 0, 1, u8::from(keep), 0, 0, 0, 0, 0];
+    v.extend_from_slice(&[1, 4, 0, 1, 0, 0, 0, 0]);
+    v.extend_from_slice(&[1, 5, 0, 1, 0, 0, 0, 0]);
+    v
+}
+
 fn never_called() -> impl for<'a, 'b> FnMut(&'a mut Request<'b, IdleReader, Sink>) -> BoxFuture<'a, io::Result<ExitStatus>> {
     |_req| Box::pin(async { Ok(ExitStatus::SUCCESS) })
 }
@@ -113,6 +157,7 @@ fn tok_run(a: &Args) -> Args {
     let mut kept: Vec<Option<TokFut>> = Vec::new();
     let mut kept_owner: Vec<usize> = Vec::new();
     let mut conns: Vec<Option<Pin<Box<dyn Future<Output = ()>>>>> = Vec::new();
+    let mut stalled: Vec<bool> = Vec::new();
     let idle_counter = Arc::new(Count(AtomicUsize::new(0)));
     let mut counters: Vec<Arc<Count>> = Vec::new();
     let mut res: Args = Vec::new();
@@ -136,6 +181,7 @@ fn tok_run(a: &Args) -> Args {
                 futs.push(Some(Box::pin(r.get_token())));
                 toks.push(None);
                 conns.push(None);
+                stalled.push(false);
                 counters.push(Arc::new(Count(AtomicUsize::new(0))));
             },
             2 => {
@@ -182,6 +228,22 @@ fn tok_run(a: &Args) -> Args {
                     }
                 }
             },
+            8 | 9 => {
+                if let Some(t) = toks.get_mut(x).and_then(Option::take) {
+                    let rd = OneShot { data: one_request(op == 9), pos: 0 };
+                    let mut c: Pin<Box<dyn Future<Output = ()>>> = Box::pin(t.run(rd, Stall, returns_at_once()));
+                    let waker = Waker::from(idle_counter.clone());
+                    let mut cx = Context::from_waker(&waker);
+                    // a request in flight is completed even when its runner has been shut down: it cannot end while its epilogue is stuck
+                    if c.as_mut().poll(&mut cx).is_pending() {
+                        conns[x] = Some(c);
+                        stalled[x] = true;
+                    } else {
+                        // only a connection whose runner was shut down before it started may end here: nothing new is started
+                        assert!(owner[x] != 0 && clones[owner[x]].is_none(), "a connection whose epilogue cannot be written cannot finish");
+                    }
+                }
+            },
             7 => {
                 let unfinished = futs.iter().enumerate().any(|(i, f)| f.is_some() && owner[i] == x);
                 if x >= 1 && x < clones.len() && clones[x].is_some() && !unfinished {
@@ -198,8 +260,11 @@ fn tok_run(a: &Args) -> Args {
                     for i in 0..conns.len() {
                         if owner[i] == x {
                             if let Some(c) = conns[i].as_mut() {
-                                assert!(c.as_mut().poll(&mut cx).is_ready(), "an idle connection must end when its runner is shut down");
-                                conns[i] = None;
+                                let done = c.as_mut().poll(&mut cx).is_ready();
+                                assert_eq!(done, !stalled[i], "an idle connection must end when its runner is shut down, a request in flight must not be cut off");
+                                if done {
+                                    conns[i] = None;
+                                }
                             }
                         }
                     }
